@@ -1,4 +1,349 @@
+/-
+  C18 — Enum and Flag representations are bijections on their members.
+  Property theorems only; helper lemmas live in `AdaptixProofs/Lemmas/Enum*.lean`.
+
+  All statements quantify over every class (any number of entries, aliases, values of
+  the model's universe), every option combination and every datum.  The `example`s
+  next to them are non-vacuity tests on literals.
+-/
 import AdaptixModel.Morph.Enum
 import AdaptixModel.Morph.Flag
+import AdaptixProofs.Lemmas.EnumVal
+import AdaptixProofs.Lemmas.EnumNames
+import AdaptixProofs.Lemmas.EnumClass
+import AdaptixProofs.Lemmas.EnumFlag
+
 namespace Adaptix.Enum.C18
+
+open Adaptix.Enum
+
+/-! ## Enum: representation by exact value -/
+
+/-- "`d` is the representation of member `m`": equal (Python `==`) to its value, or —
+    when no member value is equal to it — what the class's own `_missing_` hook maps to `m`. -/
+def ReprByValue (c : EnumClass) (d : PyVal) (m : Member) : Prop :=
+  m ∈ c.iter ∧ (m.value.pyEq d = true ∨
+    ((∀ m' ∈ c.iter, m'.value.pyEq d = false) ∧ c.missingHook d = some m))
+
+theorem reprByValue_iff {c : EnumClass} (wf : c.WF) (d : PyVal) (m : Member) :
+    (c.lookup d).orElse (fun _ => c.missingHook d) = some m ↔ ReprByValue c d m := by
+  unfold ReprByValue
+  cases hl : c.lookup d with
+  | none =>
+    have hn := EnumClass.lookup_none_iff.1 hl
+    simp only [Option.orElse_none]
+    constructor
+    · intro h; exact ⟨EnumClass.missingHook_mem h, Or.inr ⟨hn, h⟩⟩
+    · rintro ⟨hm, h | h⟩
+      · rw [hn m hm] at h; cases h
+      · exact h.2
+  | some m' =>
+    obtain ⟨hm', hpe'⟩ := (EnumClass.lookup_some_iff wf).1 hl
+    simp only [Option.orElse_some, Option.some.injEq]
+    constructor
+    · rintro rfl; exact ⟨hm', Or.inl hpe'⟩
+    · rintro ⟨hm, h | h⟩
+      · exact wf.unique hm' hm (PyVal.pyEq_trans' hpe' h)
+      · rw [h.1 m' hm'] at hpe'; cases hpe'
+
+/-- **Round trip, exact value**: dumping any member and loading the result returns the
+    same member — whichever loader implementation (value table or `enum(data)`) is in use,
+    with aliases, unhashable values and an overridden `_missing_`. -/
+theorem enum_exact_rt {c : EnumClass} (wf : c.WF) {m : Member} (hm : m ∈ c.iter) :
+    ∃ v, enumExactDumper c m = some v ∧ enumExactLoader c v = .ok m := by
+  refine ⟨m.value, enumExactDumper_eq hm, ?_⟩
+  have hval := wf.values_ok m hm
+  have hplain : m.value.isSelf = false := by
+    cases hv : m.value <;> simp_all [PyVal.isValue, PyVal.isSelf]
+  rw [enumExactLoader_eq wf hplain,
+    (EnumClass.lookup_some_iff wf).2 ⟨hm, PyVal.pyEq_refl hval⟩]
+  rfl
+
+/-- **The exact-value loader accepts exactly the representations of members** (read up to
+    Python `==`) and returns the member represented. -/
+theorem enum_exact_accepts_iff {c : EnumClass} (wf : c.WF) {d : PyVal} (hd : d.isSelf = false)
+    (m : Member) : enumExactLoader c d = .ok m ↔ ReprByValue c d m := by
+  rw [enumExactLoader_eq wf hd, ← reprByValue_iff wf]
+  cases (c.lookup d).orElse (fun _ => c.missingHook d) <;> simp
+
+/-- … and answers everything else with `BadVariantLoadError`: no other exception. -/
+theorem enum_exact_rejects {c : EnumClass} (wf : c.WF) {d : PyVal} (hd : d.isSelf = false)
+    (h : ∀ m, ¬ ReprByValue c d m) :
+    enumExactLoader c d = .loadErr (.badVariant (exactVariants c)) := by
+  rw [enumExactLoader_eq wf hd]
+  cases hr : (c.lookup d).orElse (fun _ => c.missingHook d) with
+  | none => rfl
+  | some m => exact absurd ((reprByValue_iff wf d m).1 hr) (h m)
+
+/-! ## Enum: representation by value through the loader / dumper of a value type -/
+
+/-- **Round trip, by value**: for every member whose value is covered by the value type. -/
+theorem enum_value_rt {c : EnumClass} (wf : c.WF) (k : ValueKind) {m : Member} (hm : m ∈ c.iter)
+    (hk : k.accepts m.value = true) :
+    enumValueLoader c k (enumValueDumper k m) = .ok m := by
+  have hval := wf.values_ok m hm
+  have hplain : m.value.isSelf = false := by
+    cases hv : m.value <;> simp_all [PyVal.isValue, PyVal.isSelf]
+  unfold enumValueLoader enumValueDumper ValueKind.dump ValueKind.load
+  simp only [hk, if_true]
+  rw [EnumClass.call_eq wf hplain, (EnumClass.lookup_some_iff wf).2 ⟨hm, PyVal.pyEq_refl hval⟩]
+  rfl
+
+/-- **The by-value loader accepts exactly** the data of the value type that represent a member. -/
+theorem enum_value_accepts_iff {c : EnumClass} (wf : c.WF) (k : ValueKind) {d : PyVal}
+    (hd : d.isSelf = false) (m : Member) :
+    enumValueLoader c k d = .ok m ↔ k.accepts d = true ∧ ReprByValue c d m := by
+  unfold enumValueLoader ValueKind.load
+  by_cases hk : k.accepts d = true
+  · simp only [hk, if_true, true_and]
+    rw [EnumClass.call_eq wf hd, ← reprByValue_iff wf]
+    cases (c.lookup d).orElse (fun _ => c.missingHook d) <;> simp
+  · simp [hk]
+
+/-- … and every other datum is answered with a `LoadError`. -/
+theorem enum_value_rejects {c : EnumClass} (k : ValueKind) (d : PyVal) :
+    (∃ m, enumValueLoader c k d = .ok m) ∨ ∃ e, enumValueLoader c k d = .loadErr e := by
+  unfold enumValueLoader ValueKind.load
+  by_cases hk : k.accepts d = true
+  · simp only [hk, if_true]
+    cases c.call d with
+    | none => exact Or.inr ⟨_, rfl⟩
+    | some m => exact Or.inl ⟨m, rfl⟩
+  · simp [hk]
+
+/-! ## Enum: representation by name (name_style / map) -/
+
+/-- the (decidable) hypothesis of the by-name round trip: the configured name mapping
+    sends different members to different strings -/
+abbrev InjectiveNames (c : EnumClass) (cfg : NameCfg) : Prop :=
+  InjectiveOn Member.name cfg c.membersValues
+
+instance (c : EnumClass) (cfg : NameCfg) : Decidable (InjectiveNames c cfg) :=
+  inferInstanceAs (Decidable (∀ a ∈ c.membersValues, ∀ b ∈ c.membersValues,
+    cfg.mapped a.name = cfg.mapped b.name → a = b))
+
+theorem enumNameLoader_ok {c : EnumClass} {cfg : NameCfg} {ld : PyVal → Outcome Member}
+    (h : enumNameLoader c cfg = .ok ld) :
+    ∃ mapping, genForLoading Member.name cfg c.membersValues = some mapping ∧
+      ld = fun data =>
+        if data.hashable then
+          match data.strKey with
+          | some s =>
+            match dictGet (· == ·) mapping s with
+            | some m => .ok m
+            | none => .loadErr (.badVariant (nameVariants mapping))
+          | none => .loadErr (.badVariant (nameVariants mapping))
+        else .loadErr (.badVariant (nameVariants mapping)) := by
+  unfold enumNameLoader at h
+  split at h
+  · cases h
+  · rename_i mapping hm
+    injection h with h
+    exact ⟨mapping, hm, h.symm⟩
+
+theorem enumNameDumper_ok {c : EnumClass} {cfg : NameCfg} {dp : Member → Option PyVal}
+    (h : enumNameDumper c cfg = .ok dp) :
+    ∃ mapping, genForDumping Member.name cfg c.membersValues = some mapping ∧
+      dp = fun data => (dictGet (· == ·) mapping data).map fun s => .atom (.str s) := by
+  unfold enumNameDumper at h
+  split at h
+  · cases h
+  · rename_i mapping hm
+    injection h with h
+    exact ⟨mapping, hm, h.symm⟩
+
+/-- **Round trip, by name**: whenever loader and dumper can be created and the name
+    mapping (map entries by member or by name, name_style, plain name — aliases included)
+    is injective, dumping any member and loading the result returns the same member. -/
+theorem enum_name_rt {c : EnumClass} {cfg : NameCfg} {ld : PyVal → Outcome Member}
+    {dp : Member → Option PyVal} (hl : enumNameLoader c cfg = .ok ld)
+    (hd : enumNameDumper c cfg = .ok dp) (hinj : InjectiveNames c cfg)
+    {m : Member} (hm : m ∈ c.iter) : ∃ v, dp m = some v ∧ ld v = .ok m := by
+  obtain ⟨ml, hml, rfl⟩ := enumNameLoader_ok hl
+  obtain ⟨md, hmd, rfl⟩ := enumNameDumper_ok hd
+  have hmv := EnumClass.iter_sub_membersValues hm
+  obtain ⟨s, hs, hget⟩ := genForDumping_get Member.name cfg hmd hmv
+  refine ⟨.atom (.str s), by simp [hget], ?_⟩
+  have := genForLoading_get_of_injective Member.name cfg hml hinj hmv hs
+  simp [PyVal.hashable, Atom.hashable, PyVal.strKey, Atom.strKey, this]
+
+/-- **The by-name loader accepts exactly the mapped names of members** … -/
+theorem enum_name_accepts_iff {c : EnumClass} {cfg : NameCfg} {ld : PyVal → Outcome Member}
+    (hl : enumNameLoader c cfg = .ok ld) (hinj : InjectiveNames c cfg) {d : PyVal}
+    (hd : d.isSelf = false) (m : Member) :
+    ld d = .ok m ↔ m ∈ c.iter ∧ ∃ s, cfg.mapped m.name = some s ∧ d = .atom (.str s) := by
+  obtain ⟨ml, hml, rfl⟩ := enumNameLoader_ok hl
+  constructor
+  · intro h
+    simp only at h
+    split at h
+    · split at h
+      · rename_i s hs
+        split at h
+        · rename_i m' hg
+          injection h with h; subst h
+          obtain ⟨hmem, hmapped⟩ := genForLoading_get_some Member.name cfg hml hg
+          refine ⟨EnumClass.membersValues_sub hmem, s, hmapped, ?_⟩
+          cases d with
+          | atom a => simp [PyVal.strKey] at hs; rw [Atom.strKey_eq_some hs]
+          | self n a => simp [PyVal.isSelf] at hd
+          | list xs => simp [PyVal.strKey] at hs
+          | tuple xs => simp [PyVal.strKey] at hs
+          | mapping xs => simp [PyVal.strKey] at hs
+        · cases h
+      · cases h
+    · cases h
+  · rintro ⟨hm, s, hs, rfl⟩
+    have hmv := EnumClass.iter_sub_membersValues hm
+    have := genForLoading_get_of_injective Member.name cfg hml hinj hmv hs
+    simp [PyVal.hashable, Atom.hashable, PyVal.strKey, Atom.strKey, this]
+
+/-- … and answers every other datum with `BadVariantLoadError` (no other exception,
+    unhashable data included). -/
+theorem enum_name_rejects {c : EnumClass} {cfg : NameCfg} {ld : PyVal → Outcome Member}
+    (hl : enumNameLoader c cfg = .ok ld) (d : PyVal) :
+    (∃ m, ld d = .ok m) ∨ ∃ vs, ld d = .loadErr (.badVariant vs) := by
+  obtain ⟨ml, _, rfl⟩ := enumNameLoader_ok hl
+  simp only
+  split
+  · split
+    · split
+      · exact Or.inl ⟨_, rfl⟩
+      · exact Or.inr ⟨_, rfl⟩
+    · exact Or.inr ⟨_, rfl⟩
+  · exact Or.inr ⟨_, rfl⟩
+
+/-- creation of the by-name loader and dumper succeeds exactly when every member name
+    can be mapped (always without a name_style: `convert_snake_style` is the only
+    thing that can raise) -/
+theorem enum_name_creation {c : EnumClass} {cfg : NameCfg}
+    (h : ∀ m ∈ c.membersValues, (cfg.mapped m.name).isSome = true) :
+    (enumNameLoader c cfg).isOk = true ∧ (enumNameDumper c cfg).isOk = true := by
+  obtain ⟨r, hr⟩ := genMappingGo_isSome Member.name cfg (acc := []) h
+  have hd : genForDumping Member.name cfg c.membersValues = some r := hr
+  unfold enumNameLoader enumNameDumper genForLoading
+  simp [hd, Create.isOk]
+
+
+/-! ## Flag: representation by exact value -/
+
+/-- a union of (any) members of the class: "a member or any combination of flags" -/
+def unionOf (S : List FlagCase) : Nat := orAll (S.map (·.bits))
+
+/-- CPython's own notion of a valid value of the class within the mask: a STRICT flag
+    refuses a value that contains members but also bits no contained member accounts for. -/
+def ValidValue (c : FlagClass) (v : Nat) : Prop :=
+  c.strict = true → c.cover v = 0 ∨ c.cover v = v
+
+theorem call_eq_some_iff (c : FlagClass) (v : Nat) : c.call v = some v ↔ ValidValue c v := by
+  unfold FlagClass.call ValidValue
+  by_cases hs : c.strict = true <;> by_cases h0 : c.cover v = 0 <;> by_cases hv : c.cover v = v <;>
+    simp [hs, h0, hv]
+
+theorem call_eq_none_iff (c : FlagClass) (v : Nat) : c.call v = none ↔ ¬ ValidValue c v := by
+  rw [← call_eq_some_iff]
+  unfold FlagClass.call
+  dsimp only
+  split <;> simp
+
+theorem flagExactLoader_ok {c : FlagClass} {ld : PyVal → Outcome Nat}
+    (h : flagExactLoader c = .ok ld) :
+    allBits c.mask = c.mask ∧
+      ld = fun data =>
+        match data with
+        | .atom (.int i) =>
+          if i < 0 || i > (c.mask : Int) then .loadErr (.outOfRange 0 c.mask)
+          else
+            match c.call i.toNat with
+            | some v => .ok v
+            | none => .loadErr (.msg "Bad flag value")
+        | _ => .loadErr .typeLoad := by
+  unfold flagExactLoader at h
+  dsimp only at h
+  split at h
+  · cases h
+  · split at h
+    · cases h
+    · rename_i hg
+      injection h with h
+      exact ⟨by simpa using hg, h.symm⟩
+
+/-- **Round trip, flag by exact value**: for every flag class the loader can be created
+    for (no skipped bits) and every union of its members — zero-valued, compound,
+    multi-bit members and aliases included. -/
+theorem flag_exact_rt {c : FlagClass} {ld : PyVal → Outcome Nat} (hl : flagExactLoader c = .ok ld)
+    {S : List FlagCase} (hS : ∀ s ∈ S, s ∈ c.membersValues) :
+    ld (flagExactDumper (unionOf S)) = .ok (unionOf S) := by
+  obtain ⟨_, rfl⟩ := flagExactLoader_ok hl
+  have hle : unionOf S ≤ c.mask := flagIn_le (FlagClass.union_flagIn_mask hS)
+  have hcall : c.call (unionOf S) = some (unionOf S) :=
+    (call_eq_some_iff c _).2 (fun _ => Or.inr (FlagClass.cover_of_union hS))
+  have h1 : ¬ ((unionOf S : Int) < 0) := by omega
+  have h2 : ¬ ((unionOf S : Int) > (c.mask : Int)) := by omega
+  simp [flagExactDumper, h1, h2, hcall]
+
+/-- **The exact-value flag loader accepts exactly** the `int`s (not `bool`, not look-alikes)
+    within `0 … mask` that CPython accepts as a value of the class … -/
+theorem flag_exact_accepts_iff {c : FlagClass} {ld : PyVal → Outcome Nat}
+    (hl : flagExactLoader c = .ok ld) (d : PyVal) (v : Nat) :
+    ld d = .ok v ↔ d = .atom (.int v) ∧ v ≤ c.mask ∧ ValidValue c v := by
+  obtain ⟨_, rfl⟩ := flagExactLoader_ok hl
+  constructor
+  · intro h
+    simp only at h
+    split at h
+    · rename_i i
+      split at h
+      · cases h
+      · rename_i hr
+        simp only [Bool.or_eq_true, decide_eq_true_eq, not_or, Int.not_lt, Int.not_lt] at hr
+        split at h
+        · rename_i v' hc
+          injection h with h; subst h
+          have hcv : v' = i.toNat := by
+            unfold FlagClass.call at hc
+            dsimp only at hc
+            split at hc
+            · cases hc
+            · injection hc with hc; exact hc.symm
+          subst hcv
+          have hi : (i.toNat : Int) = i := Int.toNat_of_nonneg hr.1
+          refine ⟨by rw [hi], by omega, (call_eq_some_iff c _).1 hc⟩
+        · cases h
+    · cases h
+  · rintro ⟨rfl, hle, hvalid⟩
+    have h1 : ¬ ((v : Int) < 0) := by omega
+    have h2 : ¬ ((v : Int) > (c.mask : Int)) := by omega
+    simp [h1, h2, (call_eq_some_iff c v).2 hvalid]
+
+/-- … and answers every other datum with a `LoadError` (`TypeLoadError`,
+    `OutOfRangeLoadError`, or `MsgLoadError` for what CPython refuses): never another exception. -/
+theorem flag_exact_rejects {c : FlagClass} {ld : PyVal → Outcome Nat}
+    (hl : flagExactLoader c = .ok ld) (d : PyVal) :
+    (∃ v, ld d = .ok v) ∨ ∃ e, ld d = .loadErr e := by
+  obtain ⟨_, rfl⟩ := flagExactLoader_ok hl
+  simp only
+  split
+  · split
+    · exact Or.inr ⟨_, rfl⟩
+    · split
+      · exact Or.inl ⟨_, rfl⟩
+      · exact Or.inr ⟨_, rfl⟩
+  · exact Or.inr ⟨_, rfl⟩
+
+/-- creation of the exact-value flag loader: succeeds for every non-empty class without
+    skipped bits and is refused (CannotProvide, as documented) for the others -/
+theorem flag_exact_creation (c : FlagClass) (hne : c.entries ≠ []) :
+    ((flagExactLoader c).isOk = true ↔ allBits c.mask = c.mask) ∧
+    (allBits c.mask ≠ c.mask → ∃ why, flagExactLoader c = .cannotProvide why) := by
+  have he : c.entries.isEmpty = false := by
+    cases h : c.entries with
+    | nil => exact absurd h hne
+    | cons _ _ => rfl
+  unfold flagExactLoader
+  by_cases hg : allBits c.mask = c.mask
+  · simp [he, hg, Create.isOk]
+  · simp [he, hg, Create.isOk]
+
+
 end Adaptix.Enum.C18
